@@ -98,7 +98,21 @@ def generic(op, old_ir, new_ir, call):  # noqa: F811
         d["shared_stmt_objects"] = True
     if cfg_read_as_call_arg(old_ir):
         d["cfg_read_as_call_arg"] = True
+    if iter_in_alloc_extent(old_ir):
+        d["iter_in_alloc_extent"] = True
     return d
+
+
+def iter_in_alloc_extent(ir):
+    """some allocation's extent mentions a loop iterator"""
+    iters = {s.iter for _, s in irutil.all_stmts(ir) if isinstance(s, LoopIR.For)}
+    for _, s in irutil.all_stmts(ir):
+        if isinstance(s, LoopIR.Alloc) and isinstance(s.type, T.Tensor):
+            for h in s.type.hi:
+                for _, sub in irutil.sub_exprs(h):
+                    if isinstance(sub, LoopIR.Read) and sub.name in iters:
+                        return True
+    return False
 
 
 def _block_of_gap(gap_cursor):
